@@ -55,6 +55,8 @@ def advance : P Unit := fun s =>
 def curTok : P Tok := fun s => .ok (s.cur.tok, s)
 def curLoc : P Loc := fun s => .ok (s.cur.loc, s)
 def cur : P LTok := fun s => .ok (s.cur, s)
+/-- `lexer.getString()`. -/
+def getString : P (List Byte) := fun s => .ok (s.cur.str, s)
 def fail {α} (k : DiagKind) (l : Loc) : P α := fun _ => .error (.diag ⟨k, l⟩)
 def outOfFuel {α} : P α := fun _ => .error .fuel
 def faultP {α} (what : String) : P α := fun _ => .error (.fault what)
@@ -170,8 +172,8 @@ def parseElement : Nat → P Expr
       else pure (.num c.value)
     | .STRING => do
       advance
-      let c' ← cur                            -- `lexer.getString()` is read after the advance
-      pure (.str c'.str)
+      let str ← getString                     -- `lexer.getString()` is read after the advance
+      pure (.str str)
     | .TRUE => do advance; pure (.bool true)
     | .FALSE => do advance; pure (.bool false)
     | .LPAREN => do
@@ -184,8 +186,9 @@ def parseElement : Nat → P Expr
 end
 
 def parseDecl (fuel : Nat) : P Decl := do
-  let c ← cur
-  match c.tok with
+  let tok ← curTok
+  let location ← curLoc
+  match tok with
   | .VAL => do
     advance
     let name ← parseIdentifier
@@ -206,7 +209,7 @@ def parseDecl (fuel : Nat) : P Decl := do
     expect .RBRACKET
     expect .SEMICOLON
     pure (.array name e)
-  | _ => fail .parserToken c.loc
+  | _ => fail .parserToken location
 
 /-- `parseLocalDecls` / `parseGlobalDecls`: declarations while the current token starts one. -/
 def parseDecls (allowArray : Bool) : Nat → P (List Decl)
@@ -220,13 +223,14 @@ def parseDecls (allowArray : Bool) : Nat → P (List Decl)
     else pure []
 
 def parseFormal : P Formal := do
-  let c ← cur
-  match c.tok with
+  let tok ← curTok
+  let location ← curLoc
+  match tok with
   | .VAL => do advance; let n ← parseIdentifier; pure (.val n)
   | .ARRAY => do advance; let n ← parseIdentifier; pure (.array n)
   | .PROC => do advance; let n ← parseIdentifier; pure (.proc n)
   | .FUNC => do advance; let n ← parseIdentifier; pure (.func n)
-  | _ => fail .parserToken c.loc
+  | _ => fail .parserToken location
 
 def parseFormals : Nat → P (List Formal)
   | 0 => outOfFuel
@@ -244,8 +248,9 @@ mutual
 def parseStatement : Nat → P Stmt
   | 0 => outOfFuel
   | fuel + 1 => do
-    let c ← cur
-    match c.tok with
+    let location ← curLoc
+    let tok ← curTok
+    match tok with
     | .SKIP => do advance; pure .skip
     | .STOP => do advance; pure .stop
     | .RETURN => do advance; let e ← parseExpr fuel; pure (.ret e)
@@ -283,8 +288,8 @@ def parseStatement : Nat → P Stmt
       let element ← parseElement fuel
       match element with
       | .syscall id args => pure (.syscall id args)
-      | _ => fail .parserToken c.loc          -- "invalid statement beginning with number"
-    | _ => fail .parserToken c.loc
+      | _ => fail .parserToken location          -- "invalid statement beginning with number"
+    | _ => fail .parserToken location
 
 def parseStatementsTail : Nat → P (List Stmt)
   | 0 => outOfFuel
@@ -332,6 +337,17 @@ def parseProgramP (fuel : Nat) : P Program := do
   advance                                    -- skips one token, whatever it is
   expect .END_OF_FILE
   pure { globals, procs }
+
+/-- `Parser::parseProgram` on a token sequence. -/
+def parseItems (items : List LItem) (fuel : Nat) : Except PErr Program :=
+  match items with
+  | .tok t :: r => (parseProgramP fuel |>.run { cur := t, rest := r }).map (·.1)
+  | .err e :: _ => .error (lexDiag e)
+  | [] => .error .fuel                       -- unreachable: `lexAll` is never empty (`lexAll_ne_nil`)
+
+/-- The front end with an explicit junk value for the uninitialised `Lexer::value`. -/
+def parseProgramJ (junk : Word) (src : List Byte) (fuel : Nat) : Except PErr Program :=
+  parseItems (lexAllJ junk src) fuel
 
 /-- `Parser::parseProgram` on a source buffer. -/
 def parseProgram (src : List Byte) (fuel : Nat) : Except PErr Program :=
